@@ -4,8 +4,8 @@
    them needs the parser invariants, so the hypotheses of connection_log_stmt (parser_ok, st = Header, world_ok) are not used. *)
 From Coq Require Import ZArith.
 From FV Require Import Base.Bytes Base.BytesLemmas Gen.Generated Codec.Varint Codec.NV Codec.Header Codec.Bodies Codec.Vars
-  Codec.ProtoProofs Parser.ReqModel Parser.ReqTargets Parser.StreamModel Parser.StreamRefine Parser.EnvCanon
-  Async.Conn Async.ConnWrites Async.ConnTotal Async.ConnReads Async.LogTargets.
+  Codec.ProtoProofs Parser.ReqModel Parser.ReqTargets Parser.ReqRecords Parser.StreamModel Parser.StreamRefine Parser.EnvCanon
+  Async.Conn Async.ConnWrites Async.ConnTotal Async.ConnReads Async.PeerProofs2 Async.LogTargets.
 From Coq Require Import ZifyBool ZifyNat ZifyN.
 Ltac Zify.zify_post_hook ::= Z.div_mod_to_equations.
 
@@ -561,4 +561,49 @@ Print Assumptions run_loop_log_erase.
 
 Theorem connection_log : connection_log_stmt.
 Proof. exact connection_log_proof. Qed.
+Print Assumptions connection_log.
+
+(* ------------------------------------------------------------------------------------------ *)
+(* Part 5: an instance (the client and handler of PeerProofs2.ex2): one Responder request (id 1, no KeepConn) with a
+   GetValues query in front of the end of its Stdin; the handler reads Stdin to the end (the reply to the query is flushed
+   by that read) and writes "hi" to Stdout.  The ghost log has ONE entry, closed (ConnectionReset: no KeepConn): it starts
+   with the empty log, the handler added the GetValuesResult record and the Stdout record, and close appended - no further
+   reply being pending - the empty Stdout and Stderr records and one EndRequest (0, RequestComplete) for id 1: the bytes
+   entry_ok says, and the final log is exactly that. *)
+(* ------------------------------------------------------------------------------------------ *)
+Definition exl_run : outcome * world * list served :=
+  run_loop_log (fun b => b) 10 (nb (ex2_w 1) + 4) (new_parser 64) ex2_scripts 0 (ex2_w 1) [].
+
+Definition exl_reply : bytes :=
+  [1; 10; 0; 0; 0; 18; 6; 0; 14; 2; 70; 67; 71; 73; 95; 77; 65; 88; 95; 67; 79; 78; 78; 83; 49; 48; 0; 0; 0; 0; 0; 0].
+
+Example connection_log_ex_hyps : parser_ok (new_parser 64) /\ st (new_parser 64) = Header /\ world_ok (ex2_w 1).
+Proof.
+  split; [apply new_parser_ok; vm_compute; reflexivity|]. split; [reflexivity|].
+  apply remaining_world_ok. apply bytes_okb_ok. vm_compute. reflexivity.
+Qed.
+
+Example connection_log_ex :
+  let '(o, w', l) := exl_run in
+  o = ORet /\
+  match l with
+  | [s] =>
+    sv_req s = mkReq 1 ROLE_Responder 0 [] /\ sv_result s = inl (EXIT_Complete, EXIT_SUCCESS_CODE) /\ sv_gate s = true /\
+    sv_start s = [] /\
+    sv_ret s = exl_reply ++ stream_records RT_Stdout 1 [104; 105] /\
+    sv_closed s = Some (sv_ret s ++ [] ++ (hdr_encode RT_Stdout 1 0 0 ++ hdr_encode RT_Stderr 1 0 0) ++
+                        end_record EXIT_SUCCESS_CODE PS_RequestComplete 1) /\
+    sv_closed s = Some (wlog w')
+  | _ => False
+  end.
+Proof. vm_compute. repeat split. Qed.
+
+(* ... and the theorem applied to it *)
+Example connection_log_ex_thm :
+  let '(o, w', l) := exl_run in Forall entry_ok l /\ chained [] l /\ is_prefix (last_log [] l) (wlog w').
+Proof.
+  destruct connection_log_ex_hyps as (H1 & H2 & H3).
+  exact (connection_log (fun b => b) 10 (nb (ex2_w 1) + 4)%nat (new_parser 64) ex2_scripts (ex2_w 1) H1 H2 H3).
+Qed.
+
 Print Assumptions connection_log.
